@@ -280,6 +280,7 @@ func applyC(fs hackpadfs.FS, hs *[]hackpadfs.File, o cOp) string {
 	case "open":
 		f, err := fs.Open(o.p)
 		if err != nil {
+			*hs = append(*hs, nil) // keeps handle numbers equal to open numbers
 			return "err " + classOf(err)
 		}
 		*hs = append(*hs, f)
@@ -295,7 +296,7 @@ func applyC(fs hackpadfs.FS, hs *[]hackpadfs.File, o cOp) string {
 		}
 		return fmt.Sprintf("info %s dir=%v perm=%o size=%d", info.Name(), info.IsDir(), info.Mode()&0o777, sz)
 	}
-	if o.h >= len(*hs) {
+	if o.h >= len(*hs) || (*hs)[o.h] == nil {
 		return "nohandle"
 	}
 	f := (*hs)[o.h]
@@ -361,12 +362,21 @@ func genAccess(r *Rng, es []srcEntry) []cOp {
 		paths = append(paths, e.path)
 	}
 	nh := 0
+	var opened []string
 	n := r.Range(6, 24)
 	for len(ops) < n {
 		switch r.Pick(6, 3, 8, 3, 3, 2, 2) {
 		case 0:
-			ops = append(ops, cOp{kind: "open", p: paths[r.Intn(len(paths))]})
+			op := paths[r.Intn(len(paths))]
+			if len(opened) > 0 && r.Intn(3) == 0 {
+				op = opened[r.Intn(len(opened))] // again: a retained file is now served from the cache store
+			}
+			ops = append(ops, cOp{kind: "open", p: op})
+			opened = append(opened, op)
 			nh++
+			if r.Intn(3) == 0 {
+				ops = append(ops, cOp{kind: "hstat", h: nh - 1})
+			}
 		case 1:
 			ops = append(ops, cOp{kind: "stat", p: paths[r.Intn(len(paths))]})
 		case 2:
@@ -458,7 +468,6 @@ func runC10(r *Rng, n int, replay string) {
 			if o.kind == "open" && a == "handle" {
 				info, _ := hackpadfs.Stat(ref, o.p)
 				isDirH[nh] = info != nil && info.IsDir()
-				nh++
 				if info != nil && !info.IsDir() && retained(o.p) {
 					if openedOK[o.p] && src.count(src.reads, o.p) != readsBefore {
 						c.fail(fmt.Sprintf("source %v step %d (%s): the source was read again (%d reads) for a retained file that had already been opened successfully", tree, i, o, src.count(src.reads, o.p)-readsBefore), "reread")
@@ -466,12 +475,14 @@ func runC10(r *Rng, n int, replay string) {
 					openedOK[o.p] = true
 				}
 			}
+			if o.kind == "open" {
+				nh++
+			}
 		}
-		for _, f := range hc {
-			_ = f.Close()
-		}
-		for _, f := range hr {
-			_ = f.Close()
+		for _, f := range append(hc, hr...) {
+			if f != nil {
+				_ = f.Close()
+			}
 		}
 		emit(c)
 		// model case: a sequence of opens (each read to the end) on a fresh cache over the same tree
